@@ -1,9 +1,11 @@
 import Driver.Drv.Lru
 import Driver.Drv.Store
+import Driver.Drv.Subs
 namespace Driver
 
 def drivers : List (String × CaseFn) := [
   ("lru", Driver.Drv.Lru.runCase),
-  ("store", Driver.Drv.Store.runCase)]
+  ("store", Driver.Drv.Store.runCase),
+  ("subs", Driver.Drv.Subs.runCase)]
 
 end Driver
